@@ -4,7 +4,7 @@
 //! expiry is injected with `IoRef::notify_timeout()` (what the ntex-io timer wheel calls on expiry).
 //!
 //! case: field 0 = configuration
-//!   ka, frame_len, ctl_mode, sd_gated, rr_timeout, rr_max, rr_rate
+//!   ka, frame_len, ctl_mode, sd_gated, rr_timeout, rr_max, rr_rate, -, -, -, small_wbuf
 //!     ka         keep-alive seconds handed to the dispatcher (0 = disabled)
 //!     frame_len  a frame is `frame_len` bytes (0 is read as 1); the first byte is the request id;
 //!                a frame starting with byte 255 is a decoder error; frame_len 200 = header [id, n]
@@ -12,11 +12,13 @@
 //!     ctl_mode   0 = the control service's Stop call is gated (op 5), 1 = answers Ok(None) at once
 //!     sd_gated   1 = the request service's shutdown() is gated (op 11)
 //!     rr_*       IoConfig::set_frame_read_rate(timeout, max_timeout, rate) if rr_timeout != 0
+//!     small_wbuf 1 = IoConfig::set_write_buf(1024, 256, 16): write back-pressure at 1024 buffered bytes
 //! then one field per operation
 //!   1,b,...      peer writes the bytes in one write; a request id < 200 has a gated handler;
 //!                ids 200..=204 answer at once: Some / None / Err(Service) / Err(Protocol) / unencodable
 //!   2,id,res,... the gated handlers of the listed requests complete: res 0 = Some([id]), 1 = None,
-//!                2 = Err(Service), 3 = Err(Protocol), 4 = Some(item the encoder refuses)
+//!                2 = Err(Service), 3 = Err(Protocol), 4 = Some(item the encoder refuses),
+//!                5 = Some(id followed by 1099 filler bytes 250)
 //!   3            peer closes (the peer IoTest end is dropped)
 //!   4            peer read error
 //!   5,res        the pending Stop control call completes: 0 = Ok(None), 1 = Err, 2 = Ok(Some([238]))
@@ -27,12 +29,14 @@
 //!   9            timer expiry (IoRef::notify_timeout)
 //!   10,mode      control service readiness: 0 = ready, 1 = Err
 //!   11           the request service's shutdown completes
+//!   12,c         the peer accepts no bytes (c = 0) / accepts bytes again (c = 1)
+//!   13,id,res    the gate of request id opens AND a timer expiry is flagged before the dispatcher runs
 //! observation: one field per operation
 //!   finished (0 running, 1 Ok, 2 Err), handlers still pending, timer (remaining seconds rounded to
 //!   tens, 0 = not armed), n = number of control messages so far, n codes (1d Stop(Protocol) with
 //!   d = 1 decode, 2 encode, 3 violation, 4 keep-alive timeout, 5 read timeout; 20 Stop(Error);
 //!   30/31 Stop(PeerGone) without/with io error; 40 Wr(true); 50 Wr(false)), then all bytes the peer
-//!   has received
+//!   has received: first the number of filler bytes (250), then the other bytes
 use std::cell::{Cell, RefCell};
 use std::rc::Rc;
 use std::task::{Poll, Waker};
@@ -47,7 +51,7 @@ use ntex_mqtt::{Control, Reason, verif_hooks};
 use ntex_util::time::Seconds;
 
 use crate::rt::{Gates, settle};
-use crate::{Fields, nums_of};
+use crate::Fields;
 
 #[derive(Clone, Debug)]
 pub struct FrameCodec(pub usize, pub Rc<Cell<Option<(u8, usize)>>>);
@@ -160,6 +164,11 @@ fn answer(id: u8, res: u64) -> Result<Option<Bytes>, DispatcherError<()>> {
         1 => Ok(None),
         2 => Err(DispatcherError::Service(())),
         3 => Err(DispatcherError::Protocol(ProtocolError::ReadTimeout)),
+        5 => {
+            let mut v = vec![250u8; 1100];
+            v[0] = id;
+            Ok(Some(Bytes::from(v)))
+        }
         _ => Ok(Some(Bytes::from(vec![254u8]))),
     }
 }
@@ -207,14 +216,7 @@ impl Service<Control<()>> for CtlSrv {
     type Error = ();
 
     async fn ready(&self, _: ServiceCtx<'_, Self>) -> Result<(), ()> {
-        // polled at the top of every Dispatcher::poll: remember the dispatcher task's waker so that
-        // the harness can make the dispatcher poll again in any state
-        let env = self.0.clone();
-        std::future::poll_fn(move |cx| {
-            *env.disp_waker.borrow_mut() = Some(cx.waker().clone());
-            Poll::Ready(if env.ctl_ready_mode.get() == 1 { Err(()) } else { Ok(()) })
-        })
-        .await
+        if self.0.ctl_ready_mode.get() == 1 { Err(()) } else { Ok(()) }
     }
 
     async fn call(&self, msg: Control<()>, _: ServiceCtx<'_, Self>) -> Result<Option<Bytes>, ()> {
@@ -246,8 +248,11 @@ impl Service<Control<()>> for CtlSrv {
     }
 }
 
-pub fn io_cfg(tag: &'static str, rr: (u64, u64, u64)) -> SharedCfg {
+pub fn io_cfg(tag: &'static str, rr: (u64, u64, u64), small_wbuf: bool) -> SharedCfg {
     let mut cfg = IoConfig::new();
+    if small_wbuf {
+        cfg = cfg.set_write_buf(1024, 256, 16);
+    }
     if rr.0 != 0 {
         cfg = cfg.set_frame_read_rate(Seconds(rr.0 as u16), Seconds(rr.1 as u16), rr.2 as u32);
     }
@@ -255,7 +260,7 @@ pub fn io_cfg(tag: &'static str, rr: (u64, u64, u64)) -> SharedCfg {
 }
 
 /// polls the wrapped future under catch_unwind
-struct CatchPanic<F>(std::pin::Pin<Box<F>>);
+pub struct CatchPanic<F>(pub std::pin::Pin<Box<F>>);
 
 impl<F: Future> Future for CatchPanic<F> {
     type Output = Option<F::Output>;
@@ -291,7 +296,7 @@ impl Scn {
         let (client, server) = IoTest::create();
         client.remote_buffer_cap(1 << 20);
         let reader = client.clone();
-        let io = Io::new(server, io_cfg("IS", (g(4), g(5), g(6))));
+        let io = Io::new(server, io_cfg("IS", (g(4), g(5), g(6)), g(10) == 1));
         let ioref = io.get_ref();
         let io: IoBoxed = io.into();
 
@@ -304,12 +309,21 @@ impl Scn {
         );
         let finished = Rc::new(Cell::new(0u64));
         let f2 = finished.clone();
+        let e2 = env.clone();
         let kill: Gates<u64> = Gates::new();
         let k2 = kill.clone();
         let handle = ntex::rt::spawn(async move {
             let run = async move {
                 // a panic inside Dispatcher::poll is contained here: observation 9999
-                match CatchPanic(Box::pin(disp)).await {
+                let mut guarded = CatchPanic(Box::pin(disp));
+                let e3 = e2.clone();
+                // remember the dispatcher task's waker at every poll: the harness can then make the
+                // dispatcher poll again in any state
+                let polled = std::future::poll_fn(move |cx| {
+                    *e3.disp_waker.borrow_mut() = Some(cx.waker().clone());
+                    std::pin::Pin::new(&mut guarded).poll(cx)
+                });
+                match polled.await {
                     Some(r) => f2.set(if r.is_ok() { 1 } else { 2 }),
                     None => f2.set(9999),
                 }
@@ -368,6 +382,16 @@ impl Scn {
                 }
             }
             Some(11) => env.sd_gate.open(0, 0),
+            Some(12) => {
+                if let Some(cl) = &self.client {
+                    cl.remote_buffer_cap(if op.get(1).copied().unwrap_or(0) == 0 { 0 } else { 1 << 20 });
+                }
+            }
+            Some(13) => {
+                // the gate of a handler opens and a timer expiry is flagged before anybody runs
+                self.ioref.notify_timeout();
+                env.gates.open(op[1], op[2]);
+            }
             _ => {}
         }
     }
@@ -382,7 +406,8 @@ impl Scn {
         }
         f.push(log.len() as u64);
         f.extend_from_slice(&log);
-        f.extend(nums_of(&self.seen));
+        f.push(self.seen.iter().filter(|b| **b == 250).count() as u64);
+        f.extend(self.seen.iter().filter(|b| **b != 250).map(|b| u64::from(*b)));
         f
     }
 
